@@ -61,16 +61,21 @@ Definition ref_seqs (c : comp) (n : string) (r : bool) : option (list ref) :=
 
 Definition seq_defined (c : comp) (n : string) : bool := ahas (c_bases c) n || ahas (c_sups c) n.
 
+(* Component.check_user_name: names starting with _Anon are reserved for anonymous sequences *)
+Definition is_anon (n : string) : bool := prefix "_Anon" n.
+
 (* clean_const *)
 Inductive citem := CRef (x : ref) | CNuc (ps : list part).
 Fixpoint clean_const (c : comp) (items : list item) : res (list citem) :=
   match items with
   | [] => OK []
   | IRef n star :: rest =>
+      if is_anon n then Err "reserved-name" else
       if ahas (c_bases c) n then do r <- clean_const c rest; OK (CRef (RB n star) :: r)
       else if ahas (c_sups c) n then do r <- clean_const c rest; OK (CRef (RS n star) :: r)
       else Err "undefined-sequence"
   | IDom n star :: rest =>
+      if is_anon n then Err "reserved-name" else
       match ref_seqs c n star with
       | Some l => do r <- clean_const c rest; OK (map CRef l ++ r)
       | None => Err "undefined-super-sequence"
@@ -173,6 +178,7 @@ Definition set_bases (c : comp) (b : list (string * bseq)) : comp :=
      c_structs := c_structs c; c_kins := c_kins c; c_ins := c_ins c; c_outs := c_outs c |}.
 
 Definition add_sequence (c : comp) (name : string) (ps : list part) (len : option nat) : res comp :=
+  if is_anon name then Err "reserved-name" else
   if seq_defined c name then Err "duplicate-sequence" else
   match get_length_const len ps with
   | WOk l k => OK (set_bases c (c_bases c ++ [(name, {| b_len := l; b_const := k; b_anon := false |})]))
@@ -182,6 +188,7 @@ Definition add_sequence (c : comp) (name : string) (ps : list part) (len : optio
 
 Definition add_super_sequence (c : comp) (ctr : nat) (name : string) (items : list item) (len : option nat)
   : res (comp * nat) :=
+  if is_anon name then Err "reserved-name" else
   if seq_defined c name then Err "duplicate-sequence" else
   do const <- clean_const c items;
   do r <- build_super c ctr const len;
@@ -234,7 +241,7 @@ Fixpoint resolve_ports (c : comp) (ps : list port) : res (list (ref * option str
   match ps with
   | [] => OK []
   | ((n, star), sn) :: r =>
-      do x <- (if ahas (c_bases c) n then OK (RB n star) else if ahas (c_sups c) n then OK (RS n star)
+      do x <- (if is_anon n then Err "reserved-name" else if ahas (c_bases c) n then OK (RB n star) else if ahas (c_sups c) n then OK (RS n star)
                else Err "declare-undefined-sequence");
       do _ <- (match sn with
                | Some s => if ahas (c_structs c) s then OK tt else Err "declare-undefined-structure"
